@@ -110,6 +110,11 @@ def run(ctx, config='rel-all'):
         else:
             ctx.violation('R1', arena.short(body['id']), 'no-limit:blocked', 'with no limit set, entry %s can never acquire a chunk' % key)
     ctx.floor('R1', n_sites, 11, 'acquire sites analysed under a symbolic limit (one per entry point)')
+    # ---- R7 the counter the limit is compared against is the usable bytes actually held (J4, shared with C08.O1)
+    from . import c08
+    fsz = arena.ArenaInterp(db).size_of('ChunkFooter')
+    if is_c(fsz):
+        c08.check_j4(ctx, A, db, fsz, 'R7')
     # ---- R5 who reads the limit
     val = A.get('try_alloc_layout')
     readers = set()
